@@ -1,14 +1,16 @@
 """C42 -- the serve-start hook runs exactly once per binding.
 
 Spec: spec/conc/ServeStart.tla (threads of first HTTP requests + serve() calls at lock granularity; hook modes
-      ok / raises once / raises always; wrong-design variants as vacuity guard), spec/conc/ServeStartTrace.tla.
+      ok / raises once / raises on the second call (failing re-bind) / raises always; bindings = (kind,
+      capabilities): http, pipe, unix, pipe+shm; wrong-design variants as vacuity guard), spec/conc/ServeStartTrace.tla.
 
 Pipeline
-  1. TLC model-checks ServeStart exhaustively (2-3 request threads, up to 2 requests each, 0-2 serve() threads of
-     kinds pipe/unix, all hook modes): the design satisfies the four clauses, every wrong variant falsifies some.
+  1. TLC model-checks ServeStart exhaustively (2-3 request threads, up to 2 requests each, 0-3 serve() threads on
+     PipeTransport / UnixTransport / ShmPipeTransport, all hook modes): the design satisfies the four clauses, every wrong variant falsifies some.
   2. Level A (spec -> code): every path of the dumped state graph is forced, step by step, onto a real RpcServer
      behind the real HTTP middleware stack (falcon app from make_wsgi_app) and real serve() calls on
-     PipeTransport / UnixTransport; the transport lock is a scheduler shim lock (vgi_rpc.rpc._server.threading is
+     PipeTransport / UnixTransport / ShmPipeTransport; every abstract HTTP request is concretised as a unary call,
+     a stream init or a stream continuation minted by another worker (cold worker); the transport lock is a scheduler shim lock (vgi_rpc.rpc._server.threading is
      patched while the server is constructed), the implementation's on_serve_start parks once inside the hook.
      After every step the park label and server.transport_kind are compared with the spec state.
   3. Level B (code -> spec): every real schedule of the same scenarios (stateless DFS over the scheduler's
@@ -37,8 +39,9 @@ from drivers._c23c42_util import explore, judge_traces, parallel_tlc
 META = {
     "engine": "conc",
     "text": "ServeStart.tla is a TLA+ state machine of 2-3 HTTP first-request threads (transport_kind-is-None test "
-            "outside the lock, _notify_transport under the lock: recheck, hook, commit) and 0-2 serve() threads "
-            "rebinding to pipe/unix, with hook outcome ok / raises once / raises always, model-checked exhaustively "
+            "outside the lock, _notify_transport under the lock: recheck, hook, commit) and 0-3 serve() threads "
+            "rebinding to pipe / unix / pipe+shm (bindings are (kind, capabilities) pairs), with hook outcome ok / "
+            "raises once / raises on the second call / raises always, model-checked exhaustively "
             "by TLC with the clause invariants OncePerBinding / HookBeforeDispatch / RaisingHookUnrecorded / "
             "NextRequestRerunsHook (four wrong-design variants must falsify them).  Every path of the dumped state "
             "graph is forced onto a real RpcServer behind the real falcon middleware stack and real serve() calls "
@@ -47,8 +50,9 @@ META = {
             "TLC (conformance + clauses).",
     "note": "Trusted: vf/sched.py; the harness implementation (on_serve_start / method bodies emit events and park "
             "once inside the hook); server.transport_kind read after every step as the observation of the binding. "
-            "Not covered: bindings that differ only in capabilities (ShmPipeTransport), TCP kind, pre-fork "
-            "processes (one process only).",
+            "HTTP requests are concretised as unary / stream init / stream continuation on a cold worker; hook "
+            "failures as RuntimeError / RpcError / OSError.  Not covered: TCP kind, pre-fork processes (one process "
+            "only), implementations without an on_serve_start hook.",
 }
 
 CLAUSES = ["OncePerBinding", "HookBeforeDispatch", "RaisingHookUnrecorded", "NextRequestRerunsHook"]
